@@ -330,6 +330,7 @@ func (ms *Modules) Process() []error {
 	// Reset globals that may remain stale if multiple Process() calls are
 	// made by the same caller.
 	ms.mergedSubmodule = map[string]bool{}
+	ms.includes = map[*Module]bool{}
 	ms.ClearEntryCache()
 
 	errs := ms.process()
